@@ -37,7 +37,19 @@ RULE = ('checksum: real files in a scratch directory, sizes k*c-1, k*c, k*c+1 (k
         'as str, bytes, pathlib.Path and a bare os.PathLike for every helper; write_to_tempfile: content as bytes, '
         'bytes subclass, bytearray, memoryview (of bytes / bytearray / slice / cast / 2-d / non-contiguous / reversed), '
         'array (B and wide items), mmap, ctypes array x sizes 0..70000 (300000 thorough) x existing / missing / '
-        'default directory, plus each of ensure_tree / mkstemp / os.write made to fail. A case is non-trivial when at least two chunks are fed or an error branch '
+        'default directory, and every content type at the sizes k*c-1, k*c, k*c+1 around the multiples of 64, 4096 '
+        'and 65536 (k = 1..3, thorough 1..5), plus each of ensure_tree / mkstemp / os.write made to fail and os.write '
+        'made to transfer fewer bytes than asked. Partial writes: os.write may legally transfer fewer bytes than '
+        'asked; the property says the new file holds exactly the content, so the oracle requires: whenever '
+        'write_to_tempfile returns, the file holds exactly the content - after a short write the rest has to be '
+        'written or the call has to raise (the unchanged code does one os.write and ignores the count: known finding '
+        'N7, classified only when exactly the transferred prefix is stored). Path spellings: for ensure_tree, '
+        'delete_if_exists, remove_path_on_error and the directory argument of write_to_tempfile, legal paths that '
+        'are not in lexical normal form - "..", ".", "//", trailing slash, "leaf/.." after a missing chain (depth '
+        '1..4, thorough 1..8), a regular file, a directory, a symlink to a directory and a dangling symlink - absolute, '
+        'relative to the current directory and leaving/re-entering it; oracle: the outcome of the bare OS call on the '
+        'given path (twin) decides, the whole tree equals the twin tree afterwards, and after ensure_tree returns the '
+        'given path is a directory wherever the bare os.makedirs leaves one. A case is non-trivial when at least two chunks are fed or an error branch '
         'is taken (checksum), n > 0 or a fault is injected (last_bytes), an exception is injected or the path is not '
         'simply missing (ensure/delete); distinct by the canonical case tuple')
 TRUSTED_BASE = [
@@ -52,14 +64,17 @@ TRUSTED_BASE = [
 UNMODELLED = [
     'write_to_tempfile: that mkstemp returns a new, distinct file in the requested directory is OS behaviour (no '
     'theorem, checked by the search on real directories); which calls are made, what is handed to os.write and what '
-    'escapes is modelled (writeToTempfile) and tied with every bytes-like content type; os.write short writes '
-    '(contents beyond 2 GiB) are not modelled; a non-contiguous memoryview is refused by os.write itself '
+    'escapes is modelled (writeToTempfile, including the byte count os.write returns) and tied with every bytes-like '
+    'content type; a real 2 GiB content is not written (short writes are produced by a stub); a non-contiguous memoryview is refused by os.write itself '
     '(BufferError, empty file left behind): outside the property, the oracle only requires that no other bytes are stored',
     'the one-path file-system model (osMakedirs/osUnlink) behind the idempotence theorems is an assumption about '
     'the OS, compared with the real file system on every run',
     'the default remover os.unlink is bound at def time and cannot be replaced by a stub: it is tied to the model '
     'through real paths only (the errnos the local file system produces: ENOENT, ENOTDIR, EISDIR, ENAMETOOLONG, '
     'ELOOP, ValueError for NUL; EACCES/EPERM/EROFS/EBUSY only when the sandbox is not root)',
+    'observation, not a property input: ensure_tree("<dangling symlink>/.") returns normally and the path is not a '
+    'directory, because os.makedirs itself reports success there (the FileExistsError of the head is swallowed and '
+    'the "." tail returns early); ensure_tree does what the OS call does, which is all the property asks',
     'concurrent modification of the file or directory during the call; short reads on pipes/sockets '
     '(checksum_any_chunking covers any chunking, but the model reads regular files)',
     'out of the property domain, observed and followed by the model: read_chunksize=0 gives the digest of b"" '
@@ -108,6 +123,7 @@ class Scratch:
         self.files = {}
         self.n = 0
         self.locked = []
+        self.roots = {}
         return self
 
     def __exit__(self, *a):
@@ -600,8 +616,68 @@ def gen_last_bytes(ctx):
 # --------------------------------------------------------------------------
 # ensure_tree / delete_if_exists
 
+SP_ANCHORS = ('missing', 'file', 'dir', 'symlink', 'dangling')
+SP_SUFFIXES = ('dotdot', 'dotdot-leaf', 'dotdot-deep', 'dot', 'dot-leaf', 'slashes-leaf', 'slash', 'leaf-dotdot',
+               'leaf-dotdot-leaf')
+
+
+def spelled_path(sc, anchor, suffix, depth):
+    """<root>/w/<anchor><suffix>: a legal path that is not in lexical normal form, whose '..', '.', '//' or trailing
+    slash follows a missing chain, a regular file, a directory, a symlink to a directory or a dangling symlink"""
+    root = sc.fresh('s')
+    w = os.path.join(root, 'w')
+    os.makedirs(w)
+    ups = 1
+    if anchor == 'missing':
+        a = os.path.join(w, *['m%d' % i for i in range(max(1, depth))])
+        ups = max(1, depth)
+    elif anchor == 'file':
+        a = os.path.join(w, 'plain.txt')
+        with open(a, 'wb') as f:
+            f.write(b'x')
+    elif anchor == 'dir':
+        a = os.path.join(w, 'there')
+        os.makedirs(a)
+    elif anchor == 'symlink':
+        os.makedirs(os.path.join(root, 'other', 'deep'))
+        a = os.path.join(w, 'link')
+        os.symlink(os.path.join('..', 'other', 'deep'), a)
+    elif anchor == 'dangling':
+        a = os.path.join(w, 'dang')
+        os.symlink('nowhere', a)
+    else:
+        raise ValueError(anchor)
+    tail = {'dotdot': ['..'] * ups, 'dotdot-leaf': ['..'] * ups + ['leaf'], 'dotdot-deep': ['..', 'n0', 'n1'],
+            'dot': ['.'], 'dot-leaf': ['.', 'leaf'], 'leaf-dotdot': ['leaf', '..'],
+            'leaf-dotdot-leaf': ['leaf', '..', 'leaf2']}.get(suffix)
+    if tail is not None:
+        p = os.path.join(a, *tail)
+    elif suffix == 'slashes-leaf':
+        p = a + '//leaf'
+    elif suffix == 'slash':
+        p = a + os.sep
+    else:
+        raise ValueError(suffix)
+    sc.roots[p] = root
+    return p
+
+
+def tree(root):
+    """every entry below root: (relative name, d/f/l)"""
+    out = []
+    for dirpath, dirs, files in os.walk(root):
+        for n in dirs + files:
+            full = os.path.join(dirpath, n)
+            out.append((os.path.relpath(full, root),
+                        'l' if os.path.islink(full) else 'd' if os.path.isdir(full) else 'f'))
+    return sorted(out)
+
+
 def make_path(sc, kind, depth=1):
     """a path in the scratch directory in the given state"""
+    if kind.startswith('sp:'):
+        _, anchor, suffix = kind.split(':')
+        return spelled_path(sc, anchor, suffix, depth)
     p = sc.fresh('d')
     if kind == 'dir':
         os.makedirs(p)
@@ -820,19 +896,33 @@ def run_fs(sc, case):
     op, kind, depth = case['op'], case['kind'], case.get('depth', 1)
     p0 = make_path(sc, kind, depth)
     q0 = make_path(sc, kind, depth)
-    p, q = as_ptype(p0, case.get('ptype')), as_ptype(q0, case.get('ptype'))
+    rp, rq = sc.roots.get(p0), sc.roots.get(q0)
+    rel = case.get('rel') if rp else None
+    cwd = os.getcwd()
+
+    # relpath() normalises: re-spell by hand so that the '..' / '.' / '//' elements survive
+    def respell(path, root):
+        if not rel:
+            return path
+        tail = path[len(root) + 1:]
+        return tail if rel == 'plain' else os.path.join('..', os.path.basename(root), tail)
+    p, q = as_ptype(respell(p0, rp), case.get('ptype')), as_ptype(respell(q0, rq), case.get('ptype'))
     rm = case.get('remove', 'default')
     real = REMOVERS.get(rm, os.unlink)
     seen, parts = [], []
     for _ in range(2):
         log = []
         body = make_exc(case.get('body', 'ok')) if op == 'fs_rpoe' else None
+        if rel:
+            os.chdir(rq)
         if op == 'fs_ensure':
             ref = ref_call(os.makedirs, q, 0o777)
         elif op == 'fs_rpoe' and body is None:
             ref = None                                          # the remover is not to be called at all
         else:
             ref = ref_call(real, q)
+        if rel:
+            os.chdir(rp)
         try:
             if op == 'fs_ensure':
                 with patched(os, 'makedirs', spy(os.makedirs, log)):
@@ -855,7 +945,13 @@ def run_fs(sc, case):
                 res += ' [body]'
             elif log and e is not log[-1]:                      # makedirs is recursive: outermost outcome is last
                 res += ' (a different exception object)'
-        seen.append((outcome_spec(ref), os.path.isdir(q0), state_of(q0)))
+        os.chdir(cwd)
+        diff = ''
+        if rp:                                                  # everything the call created or removed, anywhere
+            tp, tq = tree(rp), tree(rq)
+            if tp != tq:
+                diff = 'entries %r instead of %r' % (sorted(set(tp) - set(tq)), sorted(set(tq) - set(tp)))
+        seen.append((outcome_spec(ref), os.path.isdir(q0), state_of(q0), diff, os.path.isdir(p0)))
         parts += [res, state_of(p0)]
     return '|'.join(parts), seen
 
@@ -886,8 +982,15 @@ def oracle_fs(sc, case):
     kind, op = case['kind'], case['op']
     what = {'fs_ensure': 'ensure_tree', 'fs_delete': 'delete_if_exists(remove=%s)' % case.get('remove', 'default'),
             'fs_rpoe': 'remove_path_on_error(body raises %s)' % case.get('body', 'ok')}[op]
-    for k, (spec, isdir, qstate) in enumerate(seen):
+    for k, (spec, isdir, qstate, treediff, isdir_p) in enumerate(seen):
         res, st = parts[2 * k], parts[2 * k + 1]
+        if op == 'fs_ensure' and res == 'returned' and isdir and not isdir_p:
+            # stated relative to the OS reference: where the bare os.makedirs leaves a directory at the given path
+            return '%s on a %s path (depth %s%s), call %d: returned, but the given path is not a directory afterwards (after the bare os.makedirs it is)' % (
+                what, kind, case.get('depth', 1), ', %s-relative' % case['rel'] if case.get('rel') else '', k + 1)
+        if treediff:
+            return '%s on a %s path (depth %s), call %d: compared with the OS call alone the tree has %s' % (
+                what, kind, case.get('depth', 1), k + 1, treediff)
         want = fs_expected(case, spec, isdir)
         if res != want:
             return ('%s on a %s path, call %d: the OS call alone gives %s%s, so it must be "%s" but it %s'
@@ -939,6 +1042,23 @@ def gen_fs(ctx):
             out.append(({'op': 'fs_ensure', 'kind': k, 'ptype': ptype}, 'fs/ensure/path=' + ptype))
             out.append(({'op': 'fs_delete', 'kind': k, 'remove': 'default', 'ptype': ptype}, 'fs/delete/path=' + ptype))
             out.append(({'op': 'fs_rpoe', 'kind': k, 'body': 'val', 'ptype': ptype}, 'fs/remove_path_on_error/path=' + ptype))
+    # legal paths that are not in lexical normal form ('..', '.', '//', trailing slash after a missing chain, a
+    # regular file, a directory, a symlink, a dangling symlink), absolute and relative to the current directory
+    for anchor in SP_ANCHORS:
+        for suffix in SP_SUFFIXES:
+            k = 'sp:%s:%s' % (anchor, suffix)
+            for depth in ((1, 2, 4) if ctx.quick else range(1, 9)) if anchor == 'missing' else (1,):
+                for rel in (None, 'plain', 'updown'):
+                    c = {'op': 'fs_ensure', 'kind': k, 'depth': depth}
+                    if rel:
+                        c['rel'] = rel
+                    out.append((c, 'fs/ensure/spelling/%s%s' % (anchor, '/relative' if rel else '')))
+                out.append(({'op': 'fs_delete', 'kind': k, 'depth': depth, 'remove': 'default'}, 'fs/delete/spelling/' + anchor))
+                out.append(({'op': 'fs_delete', 'kind': k, 'depth': depth, 'remove': 'rmdir', 'rel': 'plain'},
+                            'fs/delete/spelling/' + anchor))
+                out.append(({'op': 'fs_rpoe', 'kind': k, 'depth': depth, 'body': 'val'}, 'fs/remove_path_on_error/spelling/' + anchor))
+    for ptype in PTYPES[1:]:
+        out.append(({'op': 'fs_ensure', 'kind': 'sp:missing:dotdot-leaf', 'depth': 2, 'ptype': ptype}, 'fs/ensure/path=' + ptype))
     for d in (2, 4):
         for rm in ('default', 'direct'):
             out.append(({'op': 'fs_delete', 'kind': 'missing', 'depth': d, 'remove': rm}, 'fs/delete/%s/missing' % rm))
@@ -1047,8 +1167,22 @@ def oracle_tempfile(sc, case):
     return None
 
 
+def chunk_multiple_sizes(ctx):
+    """the property's own size domain: k*c-1, k*c, k*c+1 around every chunk-size multiple"""
+    by = checksum_sizes(3 if ctx.quick else 5)
+    return sorted({x for c in (64, 4096, 65536) for x in by[c] if x > 8})
+
+
 def gen_tempfile(ctx):
     out = []
+    for ctype in CTYPES:                                         # every content type at the chunk multiples
+        for size in chunk_multiple_sizes(ctx):
+            out.append({'op': 'tempfile', 'size': size, 'seed': 6, 'where': 'existing', 'depth': 0,
+                        'prefix': None, 'suffix': None, 'ctype': ctype})
+    for where in TEMP_WHERE_SPELLINGS:                           # directory arguments not in normal form
+        for depth in (1, 2, 4) if ctx.quick else range(1, 9):
+            out.append({'op': 'tempfile', 'size': 9, 'seed': 6, 'where': where, 'depth': depth,
+                        'prefix': None, 'suffix': None})
     for size in (0, 1, 100, 70000):
         for where, depth in [('existing', 0), ('none', 0), ('empty', 0), ('omitted', 0)] + \
                 [('missing', d) for d in ((1, 3) if ctx.quick else range(1, 9))]:
@@ -1170,8 +1304,9 @@ def squash(text):
     return head + sep + file + sep2 + tail
 
 
+# ('..' right after a symlink is left to the ensure_tree family: tempfile.mkstemp itself abspath()s `dir`)
 TEMP_WHERE_SPELLINGS = ('missing-dotdot', 'missing-dot', 'missing-slashes', 'missing-trailing-slash',
-                        'existing-dotdot', 'symlink-dotdot')
+                        'existing-dotdot')
 
 
 def spelled_dir(base, where, depth):
@@ -1190,10 +1325,6 @@ def spelled_dir(base, where, depth):
     if where == 'existing-dotdot':
         os.makedirs(os.path.join(w, 'there'))
         return os.path.join(w, 'there', '..', *ms)
-    if where == 'symlink-dotdot':
-        os.makedirs(os.path.join(base, 'other', 'deep'))
-        os.symlink(os.path.join('..', 'other', 'deep'), os.path.join(w, 'link'))
-        return os.path.join(w, 'link', '..', *ms)
     raise ValueError(where)
 
 
@@ -1206,6 +1337,19 @@ def gen_tmpw(ctx):
                     ((('empty', 0), ('omitted', 0)) if size <= 2 else ()):
                 out.append(({'op': 'tmpw', 'size': size, 'seed': 4, 'where': where, 'depth': depth, 'ctype': ctype},
                             'write_to_tempfile/content=' + ctype))
+    for ctype in CTYPES:                                         # every content type at the chunk multiples
+        for size in chunk_multiple_sizes(ctx):
+            out.append(({'op': 'tmpw', 'size': size, 'seed': 6, 'where': 'existing', 'depth': 0, 'ctype': ctype},
+                        'write_to_tempfile/chunk-multiple/' + ctype))
+    for where in TEMP_WHERE_SPELLINGS:
+        for depth in (1, 3):
+            out.append(({'op': 'tmpw', 'size': 5, 'seed': 4, 'where': where, 'depth': depth, 'ctype': 'bytes'},
+                        'write_to_tempfile/dir=' + where))
+    for ctype in ('bytes', 'bytearray', 'memoryview', 'array-wide'):     # os.write transfers fewer bytes than asked
+        for size, shorts in ((8, (0, 1, 4, 7, 8)), (65536, (0, 4096, 65535)), (131073, (65536, 131072))):
+            for n in shorts:
+                out.append(({'op': 'tmpw', 'size': size, 'seed': 4, 'where': 'existing', 'ctype': ctype, 'short': n},
+                            'write_to_tempfile/short-write'))
     for ptype in PTYPES[2:]:
         for where, depth in (('existing', 0), ('missing', 3)):
             out.append(({'op': 'tmpw', 'size': 5, 'seed': 4, 'where': where, 'depth': depth, 'ctype': 'bytearray',
@@ -1232,9 +1376,16 @@ def oracle_tmpw(sc, case):
     res, _, rest = obs.partition(' ensure=')
     file = rest.split(' file=')[1].split(' closed=')[0]
     inj = case.get('inject') or {}
-    if file not in ('none', hexb(data)) and not (file == '-' and (inj.get('wr') or res.startswith('raised'))):
-        return '%s content of %d bytes: the file holds %r, expected exactly the content' % (
-            case.get('ctype', 'bytes'), len(data), common.unhexb(file)[:40])
+    want = squash(' file=%s closed=' % hexb(data)).split(' file=')[1].split(' closed=')[0]
+    if res == 'returned' and file != want:
+        # whenever the call returns, the file holds exactly the content - also when os.write transferred only part
+        # of it (then the rest has to be written, or the call has to raise)
+        return '%s content of %d bytes%s: write_to_tempfile returned and the file holds %s, expected exactly the content' % (
+            case.get('ctype', 'bytes'), len(data),
+            '' if case.get('short') is None else ' (os.write transfers %d bytes)' % case['short'],
+            file if file.startswith('sha1:') else '%d bytes %r' % (len(common.unhexb(file)), common.unhexb(file)[:40]))
+    if file not in ('none', '-', want) and case.get('short') is None:
+        return '%s content of %d bytes: the file holds other bytes (%s)' % (case.get('ctype', 'bytes'), len(data), file[:60])
     for step, spec in inj.items():
         if step == 'ensure' and case['where'] in ('none', 'empty', 'omitted'):
             continue
@@ -1254,6 +1405,14 @@ LINE = {'checksum': line_checksum, 'last_bytes': line_last_bytes, 'ensure': line
 ORACLE = {'checksum': oracle_checksum, 'last_bytes': oracle_last_bytes, 'ensure': oracle_ensure,
           'delete': oracle_delete, 'fs_ensure': oracle_fs, 'fs_delete': oracle_fs, 'fs_rpoe': oracle_fs,
           'tempfile': oracle_tempfile, 'tmpw': oracle_tmpw}
+
+
+N7 = 'N7'
+
+
+def is_n7(case):
+    return case.get('op') == 'tmpw' and case.get('short') is not None and case['short'] < case['size'] \
+        and not case.get('inject')
 
 
 def is_n6(case):
@@ -1362,7 +1521,7 @@ def correspondence(ctx):
             impl, _, seen = compare(ctx, sc, case, tag, rep, [])
             if rep is not None and impl != rep:
                 out.append(Disagreement(case, impl, rep))
-            for k, (spec, isdir, _) in enumerate(seen):
+            for k, (spec, isdir, *_) in enumerate(seen):
                 res = impl.split('|')[2 * k]
                 fcases.append((case, k, res, spec))
                 if case['op'] == 'fs_ensure':
@@ -1384,15 +1543,18 @@ def correspondence(ctx):
             r = run_tmpw(sc, case)
             if r is not None:
                 runs.append((case, tag, r[0], r[1]))
-        for (case, tag, obs, _), rep in zip(runs, ctx.driver.ask_many([r[3] for r in runs])):
+        uniq = list(dict.fromkeys(r[3] for r in runs))              # all content types share one request per content
+        answers = dict(zip(uniq, (squash(a) for a in ctx.driver.ask_many(uniq))))
+        for case, tag, obs, line in runs:
+            rep = answers[line]
             ctx.evaluations += 1
             ctx.count('corr/' + tag)
             ctx.count('tmpw/' + obs.split(' ensure=')[0].split(':')[0])
-            if case.get('ctype', 'bytes') != 'bytes' or case.get('inject'):
+            if case.get('ctype', 'bytes') != 'bytes' or case.get('inject') or case.get('short') is not None:
                 ctx.nontrivial(tuple(sorted((k, str(v)) for k, v in case.items())))
-            key = ('tmpw', case.get('ctype'), bool(case.get('inject')))
+            key = ('tmpw', case.get('ctype'), bool(case.get('inject')), case.get('short') is not None)
             sampled = ctx.__dict__.setdefault('_sampled', set())
-            if key not in sampled and case['size'] in (2, 6):
+            if key not in sampled and case['size'] in (2, 6, 8):
                 sampled.add(key)
                 ctx.sample({'case': case, 'implementation': obs[:160], 'model': rep[:160]}, 44)
             if obs != rep:
@@ -1471,6 +1633,11 @@ def search(ctx, seeds, full=False):
     with Scratch() as sc:
         todo = [s for s in seeds[:300] if isinstance(s, dict) and s.get('op') in ORACLE] + gen_search(ctx, full)
         for case in todo:
+            if is_n7(case) and N7 not in listed:
+                # reported to the coordinator; until it is listed the observation is only recorded
+                r = run_tmpw(sc, case)
+                ctx.count('search/short-write/%s' % ('prefix stored, returned' if r and oracle_tmpw(sc, case) else 'ok'))
+                continue
             if is_n6(case) and N6 not in listed:
                 # not (yet) listed by the coordinator: record the observation, do not count it against the tree
                 r = run_last_bytes(sc, case)
@@ -1486,22 +1653,33 @@ def search(ctx, seeds, full=False):
                 continue
             if is_n6(case):
                 kind = 'last_bytes beyond off_t'
+            elif is_n7(case):
+                kind = 'write_to_tempfile short write'
             else:
                 kind = case['op'] if case['op'] in ('ensure', 'delete') else \
                     'write_to_tempfile/content-type' if case.get('ctype', 'bytes') != 'bytes' and not case.get('inject') else '%s/%s' % (
-                    case['op'], case.get('kind') or ('seek-fault' if case.get('fault') else None) or case.get('where') or
+                    case['op'], (':'.join(case['kind'].split(':')[:2]) if case.get('kind') else None) or ('seek-fault' if case.get('fault') else None) or case.get('where') or
                                   ('cs' if case['op'] == 'checksum' else 'n'))
             if kind in kinds:
                 continue
             kinds.add(kind)
-            small = dict(case, size=min(case['size'], 11)) if is_n6(case) else shrink(sc, case)
+            small = dict(case, size=min(case['size'], 11)) if is_n6(case) else case if is_n7(case) else shrink(sc, case)
             fails.append(Failure(small, {'kind': kind, 'what': oracle(sc, small) or why}))
-            if len([f for f in fails if f.detail['kind'] != 'last_bytes beyond off_t']) >= 5:
+            if len([f for f in fails if f.detail['kind'] not in ('last_bytes beyond off_t', 'write_to_tempfile short write')]) >= 5:
                 break
     return fails
 
 
 def classify(ctx, failure, listed_findings):
+
+    if is_n7(failure.case) and any(f['id'] == N7 for f in listed_findings):
+        with Scratch() as sc:
+            r = run_tmpw(sc, failure.case)
+            data = content(failure.case['size'], failure.case['seed'])
+            want = squash('returned ensure=1 file=%s closed=1' % hexb(data[:failure.case['short']]))
+        if r and r[0] == want:                                   # exactly the listed behaviour: the prefix, returned
+            return N7
+        return None
     if is_n6(failure.case) and any(f['id'] == N6 for f in listed_findings):
         with Scratch() as sc:
             r = run_last_bytes(sc, failure.case)
@@ -1511,6 +1689,13 @@ def classify(ctx, failure, listed_findings):
 
 
 def witness_reproduces(ctx, finding):
+
+    if finding.get('id') == N7:
+        w = finding.get('witness') or {}
+        case = {'op': 'tmpw', 'size': int(w.get('size', 6)), 'seed': 1, 'where': 'existing', 'ctype': 'bytes',
+                'short': int(w.get('short', 3))}
+        with Scratch() as sc:
+            return bool(is_n7(case) and oracle_tmpw(sc, case))
     if finding.get('id') != N6:
         return False
     w = finding.get('witness') or {}
@@ -1540,11 +1725,11 @@ def replay(ctx, payload):
         elif op in ('fs_ensure', 'fs_delete', 'fs_rpoe'):
             obs, seen = run_fs(sc, case)
             print('implementation:', obs)
-            print('OS call alone :', ' | '.join('%s (path then %s)' % (sp, st) for sp, _, st in seen))
+            print('OS call alone :', ' | '.join('%s (path then %s)%s' % (x[0], x[2], ', ' + x[3] if x[3] else '') for x in seen))
             print('model on that :', ' | '.join(ctx.driver.ask_many(
                 [req('ensure', sp, int(d)) if op == 'fs_ensure' else
                  req('rpoe', 'none' if case.get('body', 'ok') == 'ok' else case['body'], sp) if op == 'fs_rpoe' else
-                 req('delete', sp) for sp, d, _ in seen])))
+                 req('delete', sp) for sp, d, *_ in seen])))
             if op != 'fs_rpoe' and case['kind'] in FS_MODEL_KINDS and case.get('remove', 'default') in FS_MODEL_REMOVERS:
                 print('model         :', ctx.driver.ask(LINE[op](case)))
         why = oracle(sc, case)
@@ -1560,7 +1745,9 @@ LEVEL_TEXT = ('Machine-checked proof (Lean 4) over a hand-written model of fileu
               'one-path file-system model; remove_path_on_error lets the block\'s exception out iff removal succeeded or '
               'found nothing, otherwise the remover\'s error. Partial: last_bytes_spec_partial holds for n <= 2^63 (beyond that the code '
               'raises ValueError: known finding N6, proved as last_bytes_beyond_off_t); write_to_tempfile: the file holds '
-              'exactly the content whenever its three calls succeed and nothing else otherwise (write_to_tempfile_exact/_spec); '
+              'exactly the content whenever its three calls succeed and os.write transfers every byte, and nothing but a '
+              'prefix of it otherwise (write_to_tempfile_exact_partial/_spec; partial: a short write is not noticed, known '
+              'finding N7, proved as write_to_tempfile_short_write); '
               'that mkstemp yields a new distinct file is OS behaviour, checked on real directories by the search only.')
 LEVEL_NOTE = ('Trusted: Lean kernel; axioms propext/Quot.sound/Classical.choice at most (audited each run); the hand model and '
               'the correspondence harness; hashlib streaming law, BufferedReader.read/seek semantics on regular files, and '
